@@ -97,6 +97,15 @@ def run(ctx):
     n_rc = read_count(ctx, prog)
     ctx.require(n_rc >= 90, 'only %d accumulator feeds found in the read slots' % n_rc)
 
+    ctx.rule('COUNT-NARROW', 'in every function installed in a typed read / write slot, a 64-bit value (the request, the result of psf_fread) that is converted to a narrower integer type is bounded '
+             'within that type by A-PENT at the conversion (the chunking idiom `n = (len > 0x10000000) ? 0x10000000 : (int) len`); the result of a typed read / write call is bounded when its '
+             'request is; only the upper side is judged (counts are positive by the wrapper contract). A request of 2^31 items or more must not come back as a negative or partial count, leave '
+             'part of the buffer unconverted, or be scanned only in part. Exceptions with a re-checked supporting fact: tables/c05_countnarrow.tsv', floor=300)
+    from engine.widearith import count_narrow, load_frozen as _lf_cn
+    import os as _os5
+    n_cn = count_narrow(ctx, prog, eff, frozen=_lf_cn(_os5.path.join(_os5.path.dirname(_os5.path.dirname(_os5.path.abspath(__file__))), 'tables', 'c05_countnarrow.tsv')))
+    ctx.require(n_cn >= 300, 'only %d narrowing conversions found in the typed read / write functions' % n_cn)
+
     from engine.run import borrow
     borrow(ctx, 'C03', ['TABLE-INDEX'], 'a write call whose sample value steers a table subscript outside the table reads memory outside anything the caller supplied (G.711 float encoders)')
     borrow(ctx, 'C11', ['BLOCK-RESTORE'], 'items a write call has accepted (w = requested) must reach the file: a header refresh that loses the codec\'s fill count makes the next write overwrite them')
